@@ -594,3 +594,14 @@ def lin_form(ctx, fi, expr, at):
         return (0, {norm(x): 1})
     c, terms = rec(e)
     return (c, tuple(sorted((k, v) for k, v in terms.items() if v != 0)))
+
+
+def node_lits_sym(fi, cfg, nid, cc):
+    """node_lits with every test read through the temporaries it mentions (sym_expr at the test's own node): `k = d['x']; if k is
+    None:` yields the literal on d['x']"""
+    lits = []
+    for (t, pol) in cfg.conditions_of(nid):
+        tn = cfg.node_of(t)
+        e = sym_expr(fi, t, tn) if tn is not None else t
+        lits += cc.literal(e, pol)
+    return lits
